@@ -153,6 +153,35 @@ func runGlobalMapAlias(c *Ctx, rule string) {
 							if x.X == v {
 								walk(x, d+1) // a re-slice shares the backing array
 							}
+						case *ssa.IndexAddr:
+							// an element of the package-level slice assigned in place
+							if x.X == v && isSlice {
+								for _, rr := range refs(x) {
+									if st, ok := rr.(*ssa.Store); ok && st.Addr == ssa.Value(x) {
+										bad = append(bad, fnName(fn)+" assigns an element of the package-level slice "+g.Name()+" in place at "+p.Pos(st.Pos())+": the table every later and concurrent call reads is changed by this call")
+									}
+								}
+							}
+						case ssa.CallInstruction:
+							if !isSlice {
+								break
+							}
+							cc := x.Common()
+							nm := calleeName(cc)
+							_, resliced := v.(*ssa.Slice)
+							if nm == "builtin.append" && len(cc.Args) > 0 && cc.Args[0] == v && resliced {
+								bad = append(bad, fnName(fn)+" appends onto a re-slice of the package-level slice "+g.Name()+" at "+p.Pos(instrPos(r))+": the appended elements overwrite the shared backing array (the defaults every later and concurrent call reads)")
+							}
+							if nm == "builtin.copy" && len(cc.Args) > 0 && cc.Args[0] == v {
+								bad = append(bad, fnName(fn)+" copies into the package-level slice "+g.Name()+" at "+p.Pos(instrPos(r))+": the shared backing array is overwritten")
+							}
+							if cal := staticCallee(cc); cal != nil && cal.Blocks != nil && cal.Pkg == sp {
+								for i, a := range callArgs(cc) {
+									if a == v && i < len(cal.Params) {
+										walk(cal.Params[i], d+1)
+									}
+								}
+							}
 						case *ssa.Store:
 							if x.Val == v {
 								_, toField := x.Addr.(*ssa.FieldAddr)
